@@ -25,6 +25,10 @@ struct S {
     with_restart: u8,
     /// a backlog of non-waiting traffic is queued (behind a slow message) before the probes
     burst: bool,
+    /// where the owner is not among the surviving kinds it is *dropped* (after `to_addr`) instead
+    /// of detached: an OwningAddr is a strong handle like the others, letting go of it stops
+    /// nothing while another one is left
+    owner_dropped: bool,
     /// timer deadlines may fire while tasks are runnable (thorough tier): ticks are then handled
     /// no earlier than due, but not necessarily at the exact instant
     time_races: bool,
@@ -118,7 +122,11 @@ impl Scene for S {
             }));
         }
         if let Some(o) = owning.take() {
-            drop(o.detach());
+            if self.owner_dropped {
+                drop(o);
+            } else {
+                drop(o.detach());
+            }
         }
         // a second client holds one more plain address for a while and drops it concurrently
         let extra = Handles::with_addr(base);
@@ -530,15 +538,24 @@ fn base_cases(tier: Tier) -> Vec<Case> {
                         desc: format!("strong-kinds subset={} path={:?} mailbox={} restart={} burst={}", subset_name(&subset), path, mailbox.name(), with_restart, burst),
                         exec: ExecCfg { horizon: 30, ..ExecCfg::default() },
                         bound: None,
-                        scene: Box::new(S { subset, path, mailbox, with_restart, burst, time_races: false }),
+                        scene: Box::new(S { subset, path, mailbox, with_restart, burst, owner_dropped: false, time_races: false }),
                     });
+                    // the owner is dropped rather than detached (where it is not one of the survivors)
+                    if !subset[1] && path == Path::Direct && with_restart <= 1 && !burst {
+                        v.push(Case {
+                            desc: format!("strong-kinds [owner dropped, not detached] subset={} path={:?} mailbox={} restart={} burst={}", subset_name(&subset), path, mailbox.name(), with_restart, burst),
+                            exec: ExecCfg { horizon: 30, ..ExecCfg::default() },
+                            bound: None,
+                            scene: Box::new(S { subset, path, mailbox, with_restart, burst, owner_dropped: true, time_races: false }),
+                        });
+                    }
                     // thorough: once more with timer deadlines racing runnable tasks
                     if tier == Tier::Thorough && with_restart <= 1 && !burst {
                         v.push(Case {
                             desc: format!("strong-kinds [time races] subset={} path={:?} mailbox={} restart={} burst={}", subset_name(&subset), path, mailbox.name(), with_restart, burst),
                             exec: ExecCfg { horizon: 30, max_early_fires: 1, ..ExecCfg::default() },
                             bound: None,
-                            scene: Box::new(S { subset, path, mailbox, with_restart, burst, time_races: true }),
+                            scene: Box::new(S { subset, path, mailbox, with_restart, burst, owner_dropped: false, time_races: true }),
                         });
                     }
                 }
